@@ -303,7 +303,7 @@ def _regularizer_sites(check: Check):
                 if isinstance(x, ast.BinOp) and isinstance(x.op, ast.Add) and any(
                     isinstance(s, ast.Name) and s.id == tgt for s in (x.left, x.right)):
                   accumulated = True
-          check.ob('R-REG', fi, txt(st)[:80], not accumulated,
+          check.ob('R-REG', fi, 'regularizer(params) added inside the per-batch step to a carried sum', not accumulated,
                    'the regulariser is added inside a per-batch step to a quantity that is then summed across batches: the '
                    'total depends on the number of batches (batch geometry), not only on the examples', node=c)
         else:
